@@ -7,7 +7,7 @@ import re
 from harness import core, inputs, xdoc
 
 GEN = ['gen_tables', 'gen_regex', 'gen_config', 'gen_escapes', 'gen_core']
-THEOREMS = ['C07_reference_in_sentence', 'C07_reference_resolves', 'C07_reference_hypotheses', 'C07_definition_scanners_are_the_source', 'C07_first_wins', 'C07_document_lookup', 'C07_containers_transparent', 'C07_two_phase', 'C07_no_output']
+THEOREMS = ['C07_full_reference_in_sentence', 'C07_collapsed_reference_in_sentence', 'C07_reference_without_definition', 'C07_reference_in_sentence', 'C07_reference_resolves', 'C07_reference_hypotheses', 'C07_definition_scanners_are_the_source', 'C07_first_wins', 'C07_document_lookup', 'C07_containers_transparent', 'C07_two_phase', 'C07_no_output']
 TRUSTED = ['the parser model (Model/Block.v, Build.v, Inline.v, CoreTokens.v): hand-written control flow, regenerated patterns/tables/configuration; '
            'tied by X-doc (tree, Document.footnotes with order, line numbers)',
            'the definition-placement generator (oracle side)']
@@ -139,7 +139,19 @@ def gen_sentence(rng):
     if post.startswith('('):
         post = ' ' + post
     w = rng.choice(forms)
-    sentence = (pre + '[' + w + ']' + post).strip(' ')
+    form = rng.choice(['shortcut', 'shortcut', 'full', 'collapsed', 'undefined'])
+    shown = w
+    if form == 'full':
+        shown = ' '.join(rng.choice(SENT_WORDS[:6]) for _ in range(rng.randint(1, 2)))
+        ref = '[' + shown + '][' + w + ']'
+    elif form == 'collapsed':
+        ref = '[' + w + '][]'
+    elif form == 'undefined':
+        shown = w = 'no such label'
+        ref = '[' + w + ']'
+    else:
+        ref = '[' + w + ']'
+    sentence = (pre + ref + post).strip(' ')
     if not sentence[0].isalnum() and sentence[0] != '[':
         sentence = 'so ' + sentence
     defs = []
@@ -156,7 +168,7 @@ def gen_sentence(rng):
         q = '> ' if (kind == 'd' and rng.random() < 0.3) else ''
         lines += [q + l, '']
     m = re.match(r'\[.*?\]: (\S+)(?: "(.*)")?$', first_def)
-    return '\n'.join(lines), sentence, w, m.group(1), m.group(2) or ''
+    return '\n'.join(lines), sentence, ref, shown, form, m.group(1), m.group(2) or ''
 
 
 def worker(text):
@@ -223,14 +235,18 @@ def run(ctx, only=None):
     with mp.Pool(core.NPROC) as pool:
         souts = pool.map(worker, [c[0] for c in scases], chunksize=50)
     esc = lambda x: html.escape(x, quote=False)
-    for (text, sentence, w, dest, title), (out, fns) in zip(scases, souts):
+    for (text, sentence, ref, shown, form, dest, title), (out, fns) in zip(scases, souts):
         ctx.count('evaluations')
         ctx.count('reference_sentences')
-        i = sentence.index('[' + w + ']')
-        want = '<p>%s<a href="%s"%s>%s</a>%s</p>' % (esc(sentence[:i]), dest, ' title="%s"' % title if title else '', esc(w), esc(sentence[i + len(w) + 2:]))
+        ctx.count('reference_sentences_' + form)
+        i = sentence.index(ref)
+        if form == 'undefined':
+            want = '<p>%s</p>' % esc(sentence)
+        else:
+            want = '<p>%s<a href="%s"%s>%s</a>%s</p>' % (esc(sentence[:i]), dest, ' title="%s"' % title if title else '', esc(shown), esc(sentence[i + len(ref):]))
         if fns is None or want not in out:
             ctx.failing.append({'interface': 'oracle(reference sentence)', 'input': {'text': text},
-                                'what': 'a shortcut reference in a plain sentence is not one link to the first definition of its label in document order, between the text before and after it',
+                                'what': 'a reference (shortcut, full or collapsed) in a plain sentence is not one link to the first definition of its label in document order, between the text before and after it - or a reference without definition does not stay literal text',
                                 'observed': out, 'expected': want, 'kf': None})
     ctx.cov['definitions_per_document'] = {str(k): v for k, v in sorted(placements.items())}
     ctx.count('distinct_nontrivial', len(nontriv))
